@@ -49,6 +49,24 @@ impl DcpsDomainParticipant {
             QosKind::Specific(q) => q,
         };
 
+        // The entity key of a publisher has one byte. Use the next value that no existing
+        // publisher uses (the counter wraps around) and fail when all are taken
+        let mut free_counter = None;
+        for _ in 0..=u8::MAX {
+            if !self
+                .domain_participant
+                .user_defined_publisher_list
+                .iter()
+                .any(|p| p.instance_handle[12] == self.publisher_counter)
+            {
+                free_counter = Some(self.publisher_counter);
+                break;
+            }
+            self.publisher_counter = self.publisher_counter.wrapping_add(1);
+        }
+        let Some(publisher_counter) = free_counter else {
+            return Err(DdsError::OutOfResources);
+        };
         let publisher_handle = InstanceHandle::new([
             self.domain_participant.instance_handle[0],
             self.domain_participant.instance_handle[1],
@@ -62,12 +80,12 @@ impl DcpsDomainParticipant {
             self.domain_participant.instance_handle[9],
             self.domain_participant.instance_handle[10],
             self.domain_participant.instance_handle[11],
-            self.publisher_counter,
+            publisher_counter,
             0,
             0,
             USER_DEFINED_WRITER_GROUP,
         ]);
-        self.publisher_counter += 1;
+        self.publisher_counter = publisher_counter.wrapping_add(1);
         let data_writer_list = Default::default();
         let listener_sender = dcps_listener.map(|l| l.spawn(&runtime.spawner()));
         let mut publisher = PublisherEntity::new(
@@ -139,6 +157,23 @@ impl DcpsDomainParticipant {
             QosKind::Default => self.domain_participant.default_subscriber_qos.clone(),
             QosKind::Specific(q) => q,
         };
+        // Same as for publishers: one byte of entity key, reused once it is free again
+        let mut free_counter = None;
+        for _ in 0..=u8::MAX {
+            if !self
+                .domain_participant
+                .user_defined_subscriber_list
+                .iter()
+                .any(|s| s.instance_handle[12] == self.subscriber_counter)
+            {
+                free_counter = Some(self.subscriber_counter);
+                break;
+            }
+            self.subscriber_counter = self.subscriber_counter.wrapping_add(1);
+        }
+        let Some(subscriber_counter) = free_counter else {
+            return Err(DdsError::OutOfResources);
+        };
         let subscriber_handle = InstanceHandle::new([
             self.domain_participant.instance_handle[0],
             self.domain_participant.instance_handle[1],
@@ -152,12 +187,12 @@ impl DcpsDomainParticipant {
             self.domain_participant.instance_handle[9],
             self.domain_participant.instance_handle[10],
             self.domain_participant.instance_handle[11],
-            self.subscriber_counter,
+            subscriber_counter,
             0,
             0,
             USER_DEFINED_READER_GROUP,
         ]);
-        self.subscriber_counter += 1;
+        self.subscriber_counter = subscriber_counter.wrapping_add(1);
 
         let listener_sender = dcps_listener.map(|l| l.spawn(&runtime.spawner()));
         let mut subscriber = UserDefinedSubscriber::new(
